@@ -556,6 +556,38 @@ mut("C10", "pattern-literal-type-assertion", ("types/pattern.go", '''			literalS
 mut("C10", "method-receiver-indexed", ("internal/parser/cedar_marshal.go", "if info.IsMethod && len(n.Args) > 0 {", "if info.IsMethod {"))
 mut("C10", "entity-uid-unmarshal-short", ("types/entity_uid.go", '''	if len(quoted) < 2 || quoted[0] != '"' || quoted[len(quoted)-1] != '"' {''', '''	if quoted[0] != '"' || quoted[len(quoted)-1] != '"' {'''))
 
+# ---- C14
+mut("C14", "policyset-marshal-unsorted", ("policy_set.go", "	slices.Sort(ids)\n", "	_ = slices.Sort[[]PolicyID]\n"))
+mut("C14", "record-marshal-unsorted", ("types/record.go", '''	keys := slices.Collect(maps.Keys(r.m))
+	slices.Sort(keys)
+	for _, k := range keys {
+		v := r.m[k]
+		if !first {''', '''	keys := slices.Collect(maps.Keys(r.m))
+	for _, k := range keys {
+		v := r.m[k]
+		if !first {'''))
+mut("C14", "entitymap-marshal-unsorted", ("types/entity_map.go", '''	slices.SortFunc(s, func(a, b Entity) int {
+		return strings.Compare(a.UID.String(), b.UID.String())
+	})''', '''	_ = strings.Compare'''))
+mut("C14", "record-eval-map-order", ("internal/eval/evalers.go", "	slices.Sort(keys)\n	for _, k := range keys {\n		en := n.elements[k]", "	_ = slices.Sort[[]int]\n	for _, k := range keys {\n		en := n.elements[k]"))
+mut("C14", "json-annotations-map-order", ("internal/json/json_unmarshal.go", "	slices.Sort(annotationKeys)\n", ""))
+mut("C14", "entity-parents-unsorted", ("types/entity.go", '''	slices.SortFunc(parents, func(a, b ImplicitlyMarshaledEntityUID) int {
+		if cmp := strings.Compare(string(a.Type), string(b.Type)); cmp != 0 {
+			return cmp
+		}
+
+		return strings.Compare(string(a.ID), string(b.ID))
+	})''', '''	_ = strings.Compare
+	_ = slices.Sort[[]int]'''))
+mut("C14", "first-error-wins-diagnostics", ("authorize.go", '''			diag.Errors = append(diag.Errors, DiagnosticError{PolicyID: id, Position: po.Position(), Message: err.Error()})
+			continue''', '''			if len(diag.Errors) < 2 {
+				diag.Errors = append(diag.Errors, DiagnosticError{PolicyID: id, Position: po.Position(), Message: err.Error()})
+			}
+			continue'''))
+
+mut("C14", "schema-entities-unsorted", ("x/exp/schema/internal/parser/marshal.go", "	entityNames := slices.Sorted(maps.Keys(entities))", "	entityNames := slices.Collect(maps.Keys(entities))"))
+mut("C14", "schema-record-attrs-unsorted", ("x/exp/schema/internal/parser/marshal.go", "	keys := slices.Sorted(maps.Keys(rec))", "	keys := slices.Collect(maps.Keys(rec))"))
+
 # ---- C20
 mut("C20", "unmarshal-merges", ("policy_set.go", """	*p = PolicySet{
 		policies: make(PolicyMap, len(jsonPolicySet.StaticPolicies)),
